@@ -209,3 +209,18 @@ Proof.
     try (destruct (is_serial cl); reflexivity);
     destruct cl; reflexivity.
 Qed.
+
+(* C06's frame predicate (a frame follows only a retry decision, the request-level frame bound) holds
+   of everything the C13 checker accepts *)
+Lemma e2e_check13_prop_frames p idem spec cl0 nodes down cs assign frs ls t0 tret margin o co :
+  e2e_check13 p idem spec cl0 nodes down cs assign frs ls t0 tret margin o co = true ->
+  prop_frames p idem (option_map fst spec) (List.length nodes) frs = true.
+Proof.
+  intros H. destruct (gate_open idem (option_map fst spec)) as [max|] eqn:Hg.
+  - destruct (e2e_check13_open _ _ _ _ _ _ _ _ _ _ _ _ _ _ _ _ H Hg) as [iv [_ Hc]].
+    pose proof (proj1 (check_spec_sound _ _ _ _ _ _ _ _ _ _ _ _ _ _ _ _ Hc)) as Hm.
+    unfold prop_frames. rewrite Hg. apply orb_true_iff. right. apply Nat.leb_le.
+    eapply multi_bound; eassumption.
+  - destruct (e2e_check13_closed _ _ _ _ _ _ _ _ _ _ _ _ _ _ _ H Hg) as [c [_ [Hs _]]].
+    eapply single_prop_frames; eassumption.
+Qed.
